@@ -6,7 +6,7 @@
      bal[a] for a \in Accts, `other` = total held by accounts outside Accts,
      allow[owner][spender] = [has, amt, exp], minter = "" when minting is disabled.
    TokHandle(c, w, sender, msg) is the contract's `execute`: new world + messages.          *)
-EXTENDS Queries
+EXTENDS Queries, Ledger
 
 NoAllow == [has |-> FALSE, amt |-> 0, exp |-> Never]
 NoneExp == [k |-> "none", v |-> 0]
@@ -18,9 +18,10 @@ EmptyToken(hub, marketing) ==
   [hub |-> hub, minter |-> hub, supply |-> 0, bal |-> [a \in Accts |-> 0], other |-> 0,
    allow |-> [o \in Accts |-> [sp \in Accts |-> NoAllow]], marketing |-> marketing]
 
-Bal(t, a) == IF a \in Accts THEN t.bal[a] ELSE 0      \* accounts outside Accts are only ever credited
-Credit(t, a, x) == IF a \in Accts THEN [t EXCEPT !.bal[a] = @ + x] ELSE [t EXCEPT !.other = @ + x]
-Debit(t, a, x)  == [t EXCEPT !.bal[a] = @ - x]         \* caller has checked a \in Accts /\ bal >= x
+\* the ledger operations are those of Ledger.tla (proved conservative for unbounded amounts by Apalache, Ledger_apa.tla)
+Bal(t, a) == LBal(t, a)                 \* accounts outside Accts are only ever credited
+Credit(t, a, x) == LCredit(t, a, x)
+Debit(t, a, x)  == LDebit(t, a, x)      \* caller has checked a \in Accts /\ bal >= x
 AllowOf(t, o, sp) == IF o \in Accts /\ sp \in Accts THEN t.allow[o][sp] ELSE NoAllow
 SumBalances(t) == SumFn(t.bal, Accts) + t.other
 
@@ -55,7 +56,7 @@ Deduct(t, w, owner, spender, x) ==
   IF ~al.has THEN [ok |-> FALSE, t |-> t]
   ELSE IF IsExpired(al.exp, w) THEN [ok |-> FALSE, t |-> t]
   ELSE IF al.amt < x THEN [ok |-> FALSE, t |-> t]
-  ELSE [ok |-> TRUE, t |-> [t EXCEPT !.allow[owner][spender].amt = @ - x]]
+  ELSE [ok |-> TRUE, t |-> LSpend(t, owner, spender, x)]
 
 TokHandle(c, w, sender, msg) ==
   LET t  == w[c]
@@ -67,27 +68,27 @@ TokHandle(c, w, sender, msg) ==
          IF ~rw.ok THEN HErr(w, "token: reward contract unknown")
          ELSE IF msg.amount = 0 THEN HErr(w, "token: zero amount")
          ELSE IF Bal(t, sender) < msg.amount THEN HErr(w, "token: insufficient balance")
-         ELSE Put(Credit(Debit(t, sender, msg.amount), msg.recipient, msg.amount),
+         ELSE Put(LMove(t, sender, msg.recipient, msg.amount),
                   IF bs THEN <<DecMsg(rw.v, sender, msg.amount), IncMsg(rw.v, msg.recipient, msg.amount)>> ELSE <<>>)
     [] msg.k = "send" ->
          IF ~rw.ok THEN HErr(w, "token: reward contract unknown")
          ELSE IF msg.amount = 0 THEN HErr(w, "token: zero amount")
          ELSE IF Bal(t, sender) < msg.amount THEN HErr(w, "token: insufficient balance")
-         ELSE Put(Credit(Debit(t, sender, msg.amount), msg.contract, msg.amount),
+         ELSE Put(LMove(t, sender, msg.contract, msg.amount),
                   (IF bs THEN <<DecMsg(rw.v, sender, msg.amount), IncMsg(rw.v, msg.contract, msg.amount)>> ELSE <<>>)
                   \o <<ReceiveMsg(msg.contract, sender, msg.amount, msg.hook)>>)
     [] msg.k = "mint" ->
          IF ~rw.ok THEN HErr(w, "token: reward contract unknown")
          ELSE IF msg.amount = 0 THEN HErr(w, "token: zero amount")
          ELSE IF t.minter = "" \/ sender # t.minter THEN HErr(w, "token: unauthorized")
-         ELSE Put(Credit([t EXCEPT !.supply = @ + msg.amount], msg.recipient, msg.amount),
+         ELSE Put(LMint(t, msg.recipient, msg.amount),
                   IF bs THEN <<IncMsg(rw.v, msg.recipient, msg.amount)>> ELSE <<>>)
     [] msg.k = "burn" ->
          IF ~rw.ok THEN HErr(w, "token: reward contract unknown")
          ELSE IF sender # t.hub THEN HErr(w, "token: unauthorized")
          ELSE IF msg.amount = 0 THEN HErr(w, "token: zero amount")
          ELSE IF Bal(t, sender) < msg.amount THEN HErr(w, "token: insufficient balance")
-         ELSE Put([Debit(t, sender, msg.amount) EXCEPT !.supply = @ - msg.amount],
+         ELSE Put(LBurn(t, sender, msg.amount),
                   IF bs THEN <<DecMsg(rw.v, sender, msg.amount)>> ELSE <<CheckSlashingMsg(t.hub)>>)
     [] msg.k = "increase_allowance" ->
          IF msg.spender = sender THEN HErr(w, "token: cannot set own account")
@@ -112,14 +113,14 @@ TokHandle(c, w, sender, msg) ==
          ELSE LET dd == Deduct(t, w, msg.owner, sender, msg.amount) IN
               IF ~dd.ok THEN HErr(w, "token: allowance")
               ELSE IF Bal(t, msg.owner) < msg.amount THEN HErr(w, "token: insufficient balance")
-              ELSE Put(Credit(Debit(dd.t, msg.owner, msg.amount), msg.recipient, msg.amount),
+              ELSE Put(LMove(dd.t, msg.owner, msg.recipient, msg.amount),
                        IF bs THEN <<DecMsg(rw.v, msg.owner, msg.amount), IncMsg(rw.v, msg.recipient, msg.amount)>> ELSE <<>>)
     [] msg.k = "burn_from" ->
          IF ~rw.ok THEN HErr(w, "token: reward contract unknown")
          ELSE LET dd == Deduct(t, w, msg.owner, sender, msg.amount) IN
               IF ~dd.ok THEN HErr(w, "token: allowance")
               ELSE IF Bal(t, msg.owner) < msg.amount THEN HErr(w, "token: insufficient balance")
-              ELSE Put([Debit(dd.t, msg.owner, msg.amount) EXCEPT !.supply = @ - msg.amount],
+              ELSE Put(LBurn(dd.t, msg.owner, msg.amount),
                        IF bs THEN <<DecMsg(rw.v, msg.owner, msg.amount), CheckSlashingMsg(t.hub)>>
                              ELSE <<CheckSlashingMsg(t.hub)>>)
     [] msg.k = "send_from" ->
@@ -127,7 +128,7 @@ TokHandle(c, w, sender, msg) ==
          ELSE LET dd == Deduct(t, w, msg.owner, sender, msg.amount) IN
               IF ~dd.ok THEN HErr(w, "token: allowance")
               ELSE IF Bal(t, msg.owner) < msg.amount THEN HErr(w, "token: insufficient balance")
-              ELSE Put(Credit(Debit(dd.t, msg.owner, msg.amount), msg.contract, msg.amount),
+              ELSE Put(LMove(dd.t, msg.owner, msg.contract, msg.amount),
                        (IF bs THEN <<DecMsg(rw.v, msg.owner, msg.amount), IncMsg(rw.v, msg.contract, msg.amount)>> ELSE <<>>)
                        \o <<ReceiveMsg(msg.contract, sender, msg.amount, msg.hook)>>)
     [] msg.k = "update_minter" /\ ~bs ->
